@@ -166,6 +166,10 @@ edition = "2021"
 vmodel = {{ path = "{h}/model" }}
 voracles = {{ path = "{h}/oracles", {features} }}
 epserde = {{ path = "{r}/epserde", default-features = false, features = ["std", "derive"] }}
+
+# epserde depends on its derive crate by version; use the working tree's copy, not the registry's
+[patch.crates-io]
+epserde-derive = {{ path = "{r}/epserde-derive" }}
 {PROFILE}
 "#,
         v = variant.replace('-', "_"),
@@ -176,7 +180,8 @@ epserde = {{ path = "{r}/epserde", default-features = false, features = ["std", 
     );
     write_if_changed(&dir.join("Cargo.toml"), &toml);
     let lock = std::fs::read_to_string(format!("{}/Cargo.lock", HARNESS)).expect("harness Cargo.lock");
-    if !dir.join("Cargo.lock").exists() {
+    if std::fs::read_to_string(dir.join("Cargo.lock")).ok().map_or(true, |l| !l.contains("vsubjects") || l.contains("checksum = \"ac80cc78b69765703f48ad93f33b8919cf5d907cda7459ad6ba2919cbbe605dd\"")) {
+        // (re)seed the lock file from the harness workspace; cargo completes it offline
         std::fs::write(dir.join("Cargo.lock"), lock).unwrap();
     }
     // remove stale bins
@@ -278,8 +283,15 @@ pub fn prepare(opts: &Opts, labels: &[String]) -> Result<Vec<(String, Universe)>
     Ok(us)
 }
 
-/// Run one subject bin for a property; returns its JSON report.
-pub fn run_bin(label: &str, prop: &str, opts: &Opts, extra: &[String]) -> Result<Value, String> {
+/// Outcome of one run of a subject program.
+pub enum RunOutcome {
+    Report(Value),
+    /// killed by a signal (abort, segfault, ...); stderr tail
+    Signal(i32, String),
+    Failed(String),
+}
+
+fn run_once(label: &str, prop: &str, opts: &Opts, extra: &[String], capture: bool) -> RunOutcome {
     let out = format!("{}/out/{}-{}-{}.json", WORK, prop, label, opts.tier);
     std::fs::remove_file(&out).ok();
     let mut c = Command::new(bin_path(label));
@@ -292,10 +304,87 @@ pub fn run_bin(label: &str, prop: &str, opts: &Opts, extra: &[String]) -> Result
         c.arg(e);
     }
     // the crate warns on stderr for every undeclared could-be-zero-copy type
-    c.stderr(std::process::Stdio::null());
-    let st = c.status().map_err(|e| format!("cannot run {}: {}", bin_path(label), e))?;
-    if !st.success() {
-        return Err(format!("subject program {} exited with {:?} for {}", label, st.code(), prop));
+    if capture {
+        c.stderr(std::process::Stdio::piped());
+    } else {
+        c.stderr(std::process::Stdio::null());
     }
-    crate::read_json(&out).ok_or_else(|| format!("no report at {}", out))
+    let o = match c.output() {
+        Ok(o) => o,
+        Err(e) => return RunOutcome::Failed(format!("cannot run {}: {}", bin_path(label), e)),
+    };
+    if !o.status.success() {
+        use std::os::unix::process::ExitStatusExt;
+        if let Some(sig) = o.status.signal() {
+            let err = String::from_utf8_lossy(&o.stderr);
+            let tail: Vec<&str> = err.lines().filter(|l| !l.starts_with("Type ") && !l.starts_with("SUBJECT")).collect();
+            return RunOutcome::Signal(sig, tail.iter().rev().take(6).rev().cloned().collect::<Vec<_>>().join(" | "));
+        }
+        return RunOutcome::Failed(format!("subject program {} exited with {:?} for {}", label, o.status.code(), prop));
+    }
+    match crate::read_json(&out) {
+        Some(v) => RunOutcome::Report(v),
+        None => RunOutcome::Failed(format!("no report at {}", out)),
+    }
+}
+
+/// Run one subject bin for a property; returns its JSON report. A run killed by a signal (abort on an
+/// absurd allocation, segfault, ...) is bisected to the subject that crashes; that subject is reported as a
+/// failure and the run is repeated without it.
+pub fn run_bin(label: &str, prop: &str, opts: &Opts, extra: &[String]) -> Result<Value, String> {
+    let n_subjects = universe_by_label(label, opts).subjects.len();
+    let mut skip: Vec<usize> = vec![];
+    let mut crash_failures: Vec<Value> = vec![];
+    loop {
+        let mut ex = extra.to_vec();
+        if !skip.is_empty() {
+            ex.push("--skip".into());
+            ex.push(skip.iter().map(|x| x.to_string()).collect::<Vec<_>>().join(","));
+        }
+        match run_once(label, prop, opts, &ex, false) {
+            RunOutcome::Report(mut v) => {
+                if let Some(a) = v["failures"].as_array_mut() {
+                    a.extend(crash_failures);
+                }
+                return Ok(v);
+            }
+            RunOutcome::Failed(e) => return Err(e),
+            RunOutcome::Signal(sig, _) => {
+                if sig == 9 || skip.len() >= 4 || n_subjects == 0 {
+                    return Err(format!("subject program {} was killed by signal {} for {} (not attributed)", label, sig, prop));
+                }
+                // bisect the subject range
+                let (mut lo, mut hi) = (0usize, n_subjects);
+                let mut last_err = String::new();
+                while hi - lo > 1 {
+                    let mid = (lo + hi) / 2;
+                    let mut e2 = ex.clone();
+                    e2.extend(["--from".to_string(), lo.to_string(), "--to".to_string(), mid.to_string()]);
+                    match run_once(label, prop, opts, &e2, true) {
+                        RunOutcome::Signal(_, err) => {
+                            hi = mid;
+                            last_err = err;
+                        }
+                        _ => lo = mid,
+                    }
+                }
+                // confirm in isolation
+                let mut e3 = extra.to_vec();
+                e3.extend(["--from".to_string(), lo.to_string(), "--to".to_string(), (lo + 1).to_string()]);
+                match run_once(label, prop, opts, &e3, true) {
+                    RunOutcome::Signal(s2, err) => {
+                        let u = universe_by_label(label, opts);
+                        let name = vmodel::render::ty(&u, &u.subjects[lo]);
+                        crash_failures.push(serde_json::json!({
+                            "property": prop, "subject": name, "subject_index": lo, "val": Value::Null, "val_shown": Value::Null,
+                            "env": {"signal": s2}, "signature": format!("process-crash:signal-{}", s2),
+                            "message": format!("the process running the check was killed by signal {} while checking this type (stderr: {})", s2, if err.is_empty() { last_err.clone() } else { err }),
+                        }));
+                        skip.push(lo);
+                    }
+                    _ => return Err(format!("subject program {} was killed by signal {} for {} but the crash did not reproduce in isolation", label, sig, prop)),
+                }
+            }
+        }
+    }
 }
